@@ -432,12 +432,25 @@ func quotRounding(q *ssa.BinOp) string {
 		if !t.neg && (tv == d || sameLoad(tv, d)) {
 			hasD = true
 		}
+		if dk, ok := constInt(d); ok && !t.neg {
+			if k, isC := constInt(tv); isC && k == dk {
+				hasD = true
+			}
+		}
 		if k, ok := constInt(tv); ok && ((t.neg && k == 1) || (!t.neg && k == -1)) {
 			hasOne = true
 		}
 	}
 	if len(ts) > 1 && hasD && hasOne {
 		return "ceil"
+	}
+	// constant divisor: x + (D-1), folded by the compiler
+	if dk, ok := constInt(d); ok && len(ts) > 1 {
+		for _, t := range ts {
+			if k, isC := constInt(stripConv(t.v)); isC && !t.neg && k == dk-1 && dk > 1 {
+				return "ceil"
+			}
+		}
 	}
 	return "floor"
 }
